@@ -3,7 +3,7 @@
    cannot be weakened silently; each is followed by Print Assumptions. *)
 From Coq Require Import ZArith List Bool Lia.
 Import ListNotations.
-From Inf Require Import model.PathM proofs.PathP.
+From Inf Require Import model.PathM proofs.PathP model.PathLimM proofs.PathPLim.
 Open Scope Z_scope.
 
 (* paste: reversed backward segment, then the forward one minus the shared point,
@@ -170,6 +170,121 @@ Theorem C15_iadd_whole : forall next p other,
 Proof. exact iadd_whole. Qed.
 Print Assumptions C15_iadd_whole.
 
+(* the limit field.  Path.maxlen is a number or None = NO LIMIT (model/PathLimM.v: the same
+   operations over paths whose limit is [option nat]; [lift] embeds the paths used above). *)
+
+(* on a path whose limit is a number every operation is the one the theorems above speak
+   about, so they all carry over *)
+Theorem C15_limit_conservative : forall next back forw p ov req rv m t,
+  lpaste (lift back) (lift forw) ov req = Some (lift (paste back forw ov req)) /\
+  lreverse next (lift p) rv = lift (reverse next p rv) /\
+  lcopy next (lift p) = lift (copy next p) /\
+  lempty_path (Some m) t = lift (empty_path m t).
+Proof.
+  intros. split; [apply lift_paste|]. split; [apply lift_reverse|]. split; [apply lift_copy | apply lift_empty].
+Qed.
+Print Assumptions C15_limit_conservative.
+
+(* reverse and copy hand the limit of the source to the path they return, None included;
+   an empty path gets the limit it is asked for *)
+Theorem C15_limit_kept : forall n1 n2 p rv,
+  llimit (lreverse n1 p rv) = llimit p /\ llimit (lcopy n2 p) = llimit p.
+Proof. exact limit_kept. Qed.
+Print Assumptions C15_limit_kept.
+
+Theorem C15_limit_empty : forall l t,
+  llimit (lempty_path l t) = l /\ lpts (lempty_path l t) = [] /\ lorigin (lempty_path l t) = t.
+Proof. intros. repeat split. Qed.
+Print Assumptions C15_limit_empty.
+
+(* paste: the requested limit; when none is requested the common limit of the two segments
+   (None stays None) or the larger number; undefined (TypeError in the code) exactly when no
+   limit is requested and exactly one segment is unlimited *)
+Theorem C15_limit_paste : forall back forw ov req r,
+  lpaste back forw ov req = Some r ->
+  paste_limit req (llimit back) (llimit forw) = Some (llimit r) /\
+  lorigin r = lorigin back - Z.of_nat (lplen back) + 1.
+Proof. exact lpaste_limit. Qed.
+Print Assumptions C15_limit_paste.
+
+Theorem C15_limit_paste_rule : forall req lb lf,
+  (forall m, req = Some m -> paste_limit req lb lf = Some (Some m)) /\
+  (req = None -> lb = None -> lf = None -> paste_limit req lb lf = Some None) /\
+  (forall x y, req = None -> lb = Some x -> lf = Some y ->
+     paste_limit req lb lf = Some (Some (Nat.max x y))) /\
+  (paste_limit req lb lf = None <->
+     req = None /\ ((lb = None /\ lf <> None) \/ (lb <> None /\ lf = None))).
+Proof. exact paste_limit_spec. Qed.
+Print Assumptions C15_limit_paste_rule.
+
+(* the frames of a pasted path for ANY limit: cut at a number, everything without a limit *)
+Theorem C15_limit_paste_frames : forall back forw ov req r,
+  lpaste back forw ov req = Some r ->
+  lpts r = cut (llimit r) (rev (lpts back) ++ lforw_part forw ov).
+Proof. exact lpaste_frames. Qed.
+Print Assumptions C15_limit_paste_frames.
+
+(* paste never truncates when the limit is None: length = len(back) + len(forw) - shared point *)
+Theorem C15_unlimited_paste_whole : forall back forw ov req r,
+  lpaste back forw ov req = Some r -> llimit r = None ->
+  lpts r = rev (lpts back) ++ lforw_part forw ov /\
+  lplen r = (lplen back + (lplen forw - (if ov then 1 else 0)))%nat.
+Proof. exact lpaste_unlimited. Qed.
+Print Assumptions C15_unlimited_paste_whole.
+
+Theorem C15_unlimited_paste_defined : forall back forw ov,
+  llimit back = None -> llimit forw = None ->
+  exists r, lpaste back forw ov None = Some r /\ llimit r = None /\
+            lpts r = rev (lpts back) ++ lforw_part forw ov.
+Proof. exact lpaste_both_unlimited. Qed.
+Print Assumptions C15_unlimited_paste_defined.
+
+(* reverse / reverse twice / copy for ANY limit the path fits in ([fits None _] is True: an
+   unlimited path of any length is reversed and copied in full) *)
+Theorem C15_limit_reverse_frames : forall next p rv,
+  fits (llimit p) (lplen p) ->
+  map erase (lpts (lreverse next p rv)) =
+  if rv then map eflip (rev (map erase (lpts p))) else rev (map erase (lpts p)).
+Proof. exact lreverse_frames. Qed.
+Print Assumptions C15_limit_reverse_frames.
+
+Theorem C15_limit_reverse_twice_whole : forall n1 n2 p rv,
+  fits (llimit p) (lplen p) ->
+  Forall2 (fun a b => ford a = ford b /\ ftag a = ftag b /\ frev a = frev b)
+          (lpts (lreverse n2 (lreverse n1 p rv) rv)) (lpts p).
+Proof. exact lreverse_twice. Qed.
+Print Assumptions C15_limit_reverse_twice_whole.
+
+Theorem C15_limit_copy_whole : forall next p,
+  fits (llimit p) (lplen p) ->
+  Forall2 (fun a b => ford a = ford b /\ ftag a = ftag b /\ frev a = frev b)
+          (lpts (lcopy next p)) (lpts p) /\
+  llimit (lcopy next p) = llimit p /\ lorigin (lcopy next p) = lorigin p.
+Proof. exact lcopy_whole. Qed.
+Print Assumptions C15_limit_copy_whole.
+
+(* consequence for append: an unlimited path, its reversal, its copy and the paste of two
+   unlimited segments accept every further frame; with a number as limit append is refused
+   exactly from that length on *)
+Theorem C15_unlimited_accepts : forall n1 n2 p rv f,
+  llimit p = None ->
+  snd (lappend p f) = true /\
+  snd (lappend (lreverse n1 p rv) f) = true /\
+  snd (lappend (lcopy n2 p) f) = true.
+Proof. exact unlimited_accepts. Qed.
+Print Assumptions C15_unlimited_accepts.
+
+Theorem C15_unlimited_paste_accepts : forall back forw ov r f,
+  llimit back = None -> llimit forw = None ->
+  lpaste back forw ov None = Some r -> snd (lappend r f) = true.
+Proof. exact pasted_unlimited_accepts. Qed.
+Print Assumptions C15_unlimited_paste_accepts.
+
+Theorem C15_limited_refuses : forall p f m,
+  llimit p = Some m -> (snd (lappend p f) = true <-> (lplen p < m)%nat).
+Proof. exact limited_refuses. Qed.
+Print Assumptions C15_limited_refuses.
+
 (* non-vacuity: a concrete path meets the hypotheses and exercises truncation *)
 Example C15_example :
   let f o t := mkF o t false 0 in
@@ -182,3 +297,17 @@ Example C15_example :
   map ftag (pts (reverse 7 back true)) = [3; 2; 1] /\ map frev (pts (reverse 7 back true)) = [true; true; true] /\
   map foid (pts (copy 7 back)) = [7; 8; 9]%nat.
 Proof. cbn. repeat split; try lia; discriminate. Qed.
+
+(* non-vacuity of the limit theorems: unlimited segments are pasted in full and stay
+   unlimited, mixed limits without a requested one are the undefined case, reverse/copy of
+   an unlimited path stay unlimited and accept a further frame, a full limited path does not *)
+Example C15_limit_example :
+  lpaste (mkLP [mkF 3 1 false 0; mkF 2 2 false 1] None 5) (mkLP [mkF 3 1 false 0; mkF 4 4 false 2] None 5) true None
+    = Some (mkLP [mkF 2 2 false 1; mkF 3 1 false 0; mkF 4 4 false 2] None 4) /\
+  lpaste (mkLP [mkF 3 1 false 0] None 5) (mkLP [mkF 3 1 false 0] (Some 4%nat) 5) true None = None /\
+  llimit (lreverse 7 (mkLP [mkF 3 1 false 0; mkF 2 2 false 1] None 5) true) = None /\
+  map frev (lpts (lreverse 7 (mkLP [mkF 3 1 false 0; mkF 2 2 false 1] None 5) true)) = [true; true] /\
+  fits (llimit (mkLP [mkF 3 1 false 0; mkF 2 2 false 1] None 5)) 2 /\
+  snd (lappend (mkLP [mkF 3 1 false 0] (Some 1%nat) 0) (mkF 1 1 false 9)) = false /\
+  snd (lappend (lcopy 7 (mkLP [mkF 3 1 false 0] None 0)) (mkF 1 1 false 9)) = true.
+Proof. cbn. repeat split. Qed.
